@@ -206,6 +206,27 @@ def judge_seeds(ctx, mode, extra, obs, acc):
             cands.setdefault(ev[1][0]['query'], []).extend(ev[1])
         elif ev[0] == 'seeds':
             seeds.setdefault(ev[1], []).extend((p[1], ev[3], ev[4]) for p in ev[5])
+    if acc is not None:
+        strands = {}
+        for ev in first:
+            if ev[0] == 'seeds':
+                strands.setdefault((ev[1], ev[3]), {})[ev[4]] = len(ev[5])
+        for k_, v in strands.items():
+            if len(v) == 2 and min(v.values()) == 0 and max(v.values()) > 0:
+                acc.classes['correlations-with-peaks-on-one-strand-only'] += 1
+    planted = ctx.world.get('planted')
+    if planted:
+        # a noise-free copy of the labels that start `before` bp into reference 1: the refined correlation peak of the candidate on that
+        # reference and strand, converted to base pairs, is the copy's offset to within one fine bin (100 bp)
+        qid, rid, rev, before = planted
+        mine = [ev for ev in first if ev[0] == 'refined' and ev[1] == qid and ev[3] == rid and ev[4] == rev and ev[6]]
+        for ev in mine[:1]:
+            best = max(ev[6], key=lambda p: p[1])
+            if abs(best[0] - before) > 100:
+                found.append(('refined-peak-is-not-at-the-planted-offset', 'query %s on reference %s strand %s: best refined peak at %s bp, the copy '
+                              'starts %s bp into the reference (refined peaks %s)' % (qid, rid, '-' if rev else '+', best[0], before, ev[6][:4]), 'convert', {}))
+        if acc is not None and mine:
+            acc.classes['planted-copies-within-the-secondary-margin-of-the-reference-start'] += 1
     for qid in ctx.qmaps:
         cl = sorted(cands.get(qid, []), key=lambda c: c['index'] if c['index'] is not None else 0)
         sd = sorted(seeds.get(qid, []), reverse=True)
@@ -233,8 +254,28 @@ def seed_layer(tier, seed):
     n = 10 if tier == 'quick' else 80
     refs, pool, sets = e2e.query_sets(n, 'c16')
     ws = [e2e.set_world(refs, pool, s, nrefs=3, short_ref=i % 3 == 1, ref_ids=(17, 4, 9) if i % 2 else None) for i, s in enumerate(sets)]
+    # tight references: a contig with just one label in front of and behind the molecule cut from it, a few seeding bins away, so
+    # that each strand's correlation has five to nine values and often no peak at all on the wrong strand; with two ordinary
+    # references for competition
+    from mc import worlds as W
+    t = 0
+    for k in (11, 12, 13):
+        for before, after in ((5600.0, 4200.0), (4200.0, 5600.0), (7000.0, 2800.0), (2800.0, 7000.0), (5600.0, 5600.0)):
+            for rev in (True, False):
+                t += 1
+                if tier == 'quick' and (k != 12 or not (rev or before == after)):
+                    continue
+                base = W.catalogue_ref(k, 'menu', 14, ref_id=1, lead=0.0)[2]
+                labels = [0.0] + [round(before + p - base[0], 1) for p in base]
+                labels.append(round(labels[-1] + after, 1))
+                src = (1, labels[-1] + 1.0, labels)
+                q = W.window_query(src, 1, 14, rev)[0][2]
+                other = W.window_query(refs[t % 3], 10 + t, 15, not rev)[0][2]
+                ws.append(dict(refs=[refs[1], src, refs[0]], queries=[W.as_map(e2e.QIDS[0], q), W.as_map(e2e.QIDS[1], other)],
+                               desc=['tight reference (%s before, %s after) on strand %s' % (before, after, '-' if rev else '+'), 'plain'],
+                               planted=[e2e.QIDS[0], 1, rev, before]))
     extras = tuple(('-p', str(p)) for p in (1, 2, 3, 5))
-    return e2e.WorldLayer('S2:seeds', ws, judge_seeds, extras=extras, modes=('all',), extensions=[sink.Candidates, sink.Seeds],
+    return e2e.WorldLayer('S2:seeds', ws, judge_seeds, extras=extras, modes=('all',), extensions=[sink.Candidates, sink.Seeds, sink.Refined],
                           bounds=dict(worlds=len(ws), peaksCount=[1, 2, 3, 5], references=3, queries_per_world=[3, 5]),
                           rule='%d multi-query worlds on 3 references x 4 peaksCount' % len(ws), cli_every=0)
 
